@@ -186,8 +186,14 @@ def dict_cls(items):
     ks = set()
     for x in (items.values() if isinstance(items, dict) else []):
         kinds_in(x, ks)
-    rag = sorted(k for k in ks if 'ragged' in k or 'dict' in k.split('-')[-1:] or k.endswith(('-nonascii', '-blank')))
-    return 'dict:' + ('+'.join(rag) if rag else 'plain')
+    rag = {k for k in ks if 'ragged' in k or 'dict' in k.split('-')[-1:]}
+    # string alphabet classes: where the unusual characters sit (scalar / inside a list or tuple)
+    for suffix in ('nonascii', 'blank'):
+        if 'str-' + suffix in ks:
+            rag.add('str-' + suffix)
+        if any(k.endswith('-str-' + suffix) for k in ks):
+            rag.add('strseq-' + suffix)
+    return 'dict:' + ('+'.join(sorted(rag)) if rag else 'plain')
 
 
 # ---------------------------------------------------------------------------- binding A: exported dictionaries
@@ -388,12 +394,12 @@ def sweep_files(tmp):
     f = {}
     f['tp'] = os.path.join(tmp, 'sweep_tp.csv')
     with open(f['tp'], 'w') as o:
-        o.write('# P[bar],T[K]\n')
+        o.write('# temperature profile\n# P[bar],T[K]\n')
         for p, t in zip(np.logspace(1, -6, 12), np.linspace(1500.0, 600.0, 12)):
             o.write('%r,%r\n' % (float(p), float(t)))
     f['p'] = os.path.join(tmp, 'sweep_p.csv')
     with open(f['p'], 'w') as o:
-        o.write('# x,P[bar]\n')
+        o.write('# pressure profile\n# x,P[bar]\n')
         for p in np.logspace(1, -6, NL):
             o.write('0,%r\n' % float(p))
     f['chem'] = os.path.join(tmp, 'sweep_chem.dat')
@@ -411,7 +417,10 @@ def sweep_table(files):
     T = []
 
     def add(kind, cls, all_, required=(), groups=(), exempt=None, extra=None, singles=True, over=None):
-        T.append(dict(kind=kind, cls=cls, all=all_, required=tuple(required), groups=tuple(groups), exempt=exempt or {},
+        exempt = dict(exempt or {})
+        if kind == 'gas':
+            exempt['molecule_name'] = 'names the gas (and its group in the file); H2O here, CH4 / N2 / H / e- in the combinations'
+        T.append(dict(kind=kind, cls=cls, all=all_, required=tuple(required), groups=tuple(groups), exempt=exempt,
                       extra=extra or {}, singles=singles, over=over or {}))
     add('temperature', 'Isothermal', dict(T=1234.0))
     add('temperature', 'Guillot2010', dict(TEMPS['Guillot2010']))
@@ -420,7 +429,7 @@ def sweep_table(files):
         groups=[('temperature_points', 'pressure_points')])
     add('temperature', 'Rodgers2000', dict(temperature_layers=list(np.linspace(1500.0, 600.0, NL)), correlation_length=4.0, covariance_matrix=('ndarray', cov)),
         required=['temperature_layers'])
-    add('temperature', 'TemperatureFile', dict(filename=files['tp'], skiprows=1, temp_col=1, press_col=0, press_units='bar', delimiter=',', reverse=True),
+    add('temperature', 'TemperatureFile', dict(filename=files['tp'], skiprows=2, temp_col=1, press_col=0, press_units='bar', delimiter=',', reverse=True),
         exempt=dict(temp_units='kelvin is the only temperature unit in use'), singles=False)
     add('chemistry', 'TaurexChemistry', dict(fill_gases=['H2', 'He', 'Ar'], ratio=[0.2, 0.05], derived_ratios=['C/O'], base_metallicty=0.02),
         groups=[('fill_gases', 'ratio')], extra={'ratio-scalar': dict(ratio=0.2)})
@@ -432,7 +441,7 @@ def sweep_table(files):
     add('gas', 'ArrayGas', dict(mix_ratio_array=[1e-3, 1e-4, 1e-6]))
     add('pressure', 'SimplePressureProfile', dict(nlayers=25, atm_min_pressure=2e-1, atm_max_pressure=5e5))
     add('pressure', 'ArrayPressureProfile', dict(array=('ndarray', [float(x) for x in np.logspace(0.0, 5.5, NL)]), reverse=True), singles=False)
-    add('pressure', 'FilePressureProfile', dict(filename=files['p'], usecols=1, skiprows=1, units='bar', delimiter=',', reverse=True), singles=False)
+    add('pressure', 'FilePressureProfile', dict(filename=files['p'], usecols=1, skiprows=2, units='bar', delimiter=',', reverse=True), singles=False)
     add('planet', 'Planet', dict(PLANET), exempt=dict(planet_sma='documented alias of planet_distance, given in its own variant'),
         extra={'sma': dict(PLANET, planet_sma=0.07, planet_distance=None)})
     add('star', 'BlackbodyStar', dict(STAR), over=dict(model=('EmissionModel', dict(ngauss=3))))
@@ -800,7 +809,7 @@ def program_par(xdir, binning, obs, retrieval):
     elif binning == 'observed':
         L += ['[Observation]', 'observed_spectrum = %s' % obs]
     if retrieval:
-        L += ['[Optimizer]', 'optimizer = nestle', 'num_live_points = 5', 'tol = 50.0',
+        L += ['[Optimizer]', 'optimizer = nestle', 'num_live_points = 8', 'tol = 5.0',
               '[Fitting]', 'planet_radius:fit = True', 'planet_radius:bounds = 0.9, 1.1', 'T:fit = False', 'H2O:fit = False']
     return '\n'.join(L) + '\n'
 
@@ -900,13 +909,25 @@ def run_size_callers(ctx, tmp, classes, rng, tau_rows):
     obs = os.path.join(ptmp, 'obs.dat')
     with open(obs, 'w') as f:
         for x in np.linspace(5.5, 20.0, 7):
-            f.write('%.6f %.8e %.3e\n' % (x, 0.0105 + 1e-4 * rng.random(), 5e-5))
+            f.write('%.6f %.8e %.3e\n' % (x, 0.0105 + 1e-4 * rng.random(), 5e-3))     # wide errors: flat likelihood, no zero-weight samples
     flags = dict(heavy=[], light=['--light'], lighter=['--lighter'])
     bib_events = []
     for binning, bname in (('native', 'native'), ('simple', 'simple'), ('flux', 'flux'), ('observed', 'flux'), ('retrieval', 'flux')):
         for sname in ('heavy', 'light', 'lighter'):
             retr = binning == 'retrieval'
-            out, (bib_tex, short) = run_program(program_par(xdir, 'observed' if retr else binning, obs, retr), flags[sname] + (['-R'] if retr else []), ptmp)
+            for attempt in range(3):
+                try:
+                    np.random.seed(ctx.seed * 101 + attempt)        # nestle draws from numpy's global generator
+                    out, (bib_tex, short) = run_program(program_par(xdir, 'observed' if retr else binning, obs, retr),
+                                                        flags[sname] + (['-R'] if retr else []), ptmp)
+                    break
+                except Machinery:
+                    raise
+                except Exception:
+                    # a retrieval with a handful of live points can die in the error propagation (zero-weight samples):
+                    # not this property; try other samples, then let the exception count as "the program raised"
+                    if not retr or attempt == 2:
+                        raise
             with h5py.File(out, 'r') as f:
                 o = f['Output']
                 blocks = [('program', o['Priors']['Spectra'], 'Output/Priors/Spectra')] if retr else [('program', o['Spectra'], 'Output/Spectra')]
@@ -982,6 +1003,34 @@ def run_bibliography(ctx, tmp, classes):
     return events
 
 
+def judge_events(ctx, events, tau_rows):
+    """Binding B: every recorded event is validated by TLC (Trace_Output); one verdict per event."""
+    for i, e in enumerate(events):
+        e['l'] = i
+    accepted, bad, res = validate_trace('Trace_Output', 'Trace_Output.cfg', [{k: v for k, v in e.items() if k not in ('cls', 'group')} for e in events])
+    ctx.add_tlc('trace', res, counts=False)
+    if res.postcondition_false and not bad:
+        raise Machinery('trace spec did not consume the whole trace:\n' + res.out[-1500:])
+    badl = {b['l'] for b in bad}
+    ctx.traces += len(events)
+    for e in events:
+        if e['ev'] == 'dict' and 'cls' in e:
+            ctx.verdict('RoundTrip', e['l'] not in badl, cls=e['cls'],
+                        detail='%s: the stored citation strings came back changed: %s' % (e['id'], json.dumps(e['tree'])[:240]), vector=dict(bib=e['id']))
+        elif e['ev'] == 'dict':
+            ctx.verdict('RoundTrip', e['l'] not in badl, cls='trace:' + dict_cls(e['items']),
+                        detail='TLC rejected the reloaded tree %s' % json.dumps(e['tree'])[:300], vector=dict(trace=True, items=e['items']))
+        elif e['ev'] == 'tau':
+            ctx.verdict('TauBySize', e['l'] not in badl, cls='%s:%s:%s:%s' % (e['caller'], e['place'], e['binner'], e['size']),
+                        detail='%s holds the optical-depth datasets %s; the specification (TauAt) requires %s' % (
+                            e['group'], e['tau'], [r['tau'] for r in tau_rows if (r['caller'], r['place'], r['binner'], r['size']) ==
+                                                  (e['caller'], e['place'], e['binner'], e['size'])]), vector=dict(tau=True, caller=e['caller']))
+        else:
+            ctx.verdict('GridRelationsExact', e['l'] not in badl, cls='flux:dyadic' if e['id'].startswith('flux') else 'simple:dyadic',
+                        detail='bin %s: wn=%s w=%s stored wl=%s wlwidth=%s' % (e['id'], e['wn'], e['w'], e['wl'], e['wlw']), vector=dict(trace=True, grid=e))
+    return badl
+
+
 # ---------------------------------------------------------------------------- main
 # Findings on the unchanged tree that this check proposes as known (the coordinator owns known_findings.json; until an
 # entry with the same id is there, the proposal is matched here so that every OTHER violation is still reported).
@@ -1000,22 +1049,6 @@ def propose_findings(ctx):
     for f in PROPOSED_FINDINGS:
         if f['id'] not in have:
             ctx.findings.append(dict(f))
-
-
-def sweep_pick(ctx, rng):
-    """quick: every 'all' / named variant and a seeded third of the one-keyword variants; thorough: everything."""
-    if ctx.tier != 'quick':
-        return None
-    keep = {}
-
-    def pick(row, name):
-        if not name.startswith('single:'):
-            return True
-        key = (row['cls'], name)
-        if key not in keep:
-            keep[key] = rng.random() < 0.34 or name.endswith(('bottomP', 'topP', 'P_surface', 'P_top'))
-        return keep[key]
-    return pick
 
 
 def run(ctx):
@@ -1046,26 +1079,33 @@ def run(ctx):
     tmp = tempfile.mkdtemp(prefix='c16_')
     sd = None
     try:
-        # 1. design level
-        r = ctx.check_spec('exhaustive', 'MC_Output', 'MC_Output_%s.cfg' % ctx.tier)
+        # 1. design level (quick: the export configurations are the exhaustive ones -- same constants, same invariants)
+        if q:
+            r = ctx.check_spec('exhaustive', 'MC_Output', 'EX_Output_quick.cfg', workers=1)
+            rs = ctx.check_spec('exhaustive-strings', 'MC_Output', 'EX_OutputStr_quick.cfg', workers=1)
+            exports = [r, rs]
+        else:
+            r = ctx.check_spec('exhaustive', 'MC_Output', 'MC_Output_thorough.cfg')
+            ctx.check_spec('exhaustive-strings', 'MC_Output', 'MC_OutputStr_thorough.cfg')
+            exports = []
+            for cfg in ('EX_Output_thorough.cfg', 'EX_OutputStr_thorough.cfg'):
+                ex = run_tlc('MC_Output', cfg, workers=1)
+                ctx.add_tlc('export' + ('-strings' if 'Str' in cfg else ''), ex, counts=False)
+                exports.append(ex)
         ctx.exhaustive = True
         keytable = r.tagged('KEYS')[0]
         tau_rows = r.tagged('TAU')[0]
-        ctx.check_spec('exhaustive-strings', 'MC_Output', 'MC_OutputStr_%s.cfg' % ctx.tier)
         ctx.expect_refuted('numpy2-valueerror-not-caught', 'MC_Output', 'MC_Output_numpy2.cfg', 'RoundTrip')
         ctx.expect_refuted('size-by-identity', 'MC_Output', 'MC_Output_sizeident.cfg', 'SizeArith')
-        for c in ('distinct', 'single'):
-            ctx.check_spec('writer-lemma-' + c, 'MC_OutputWr', 'MC_OutputWr_%s.cfg' % c)
+        ctx.check_spec('writer-lemma', 'MC_OutputWr', 'MC_OutputWr_sufficient.cfg')
         ctx.expect_refuted('writer-lemma-any-values', 'MC_OutputWr', 'MC_OutputWr_any.cfg', 'Exposes')
         lap('design')
         # 2. binding A: exported dictionaries through HDF5Output / h5py
         n = 0
-        for cfg in ('EX_Output_%s.cfg', 'EX_OutputStr_%s.cfg'):
-            ex = run_tlc('MC_Output', cfg % ctx.tier, workers=1)
-            ctx.add_tlc('export' + ('-strings' if 'Str' in cfg else ''), ex, counts=False)
+        for ex in exports:
             vecs = ex.tagged('VEC')
             if not vecs:
-                raise Machinery('no dictionary exported by %s' % cfg)
+                raise Machinery('no dictionary exported')
             n += run_dict_vectors(ctx, vecs, tmp, rng)
             ctx.add_sample(dict(dictionary=vecs[len(vecs) // 3]['dict']))
         ctx.note('%d exported dictionaries stored and reloaded' % n)
@@ -1084,29 +1124,7 @@ def run(ctx):
         lap('bibliography')
         # 4. binding B: random dictionaries, bibliography strings, tau datasets per caller and exact grid relations, validated by TLC
         events = run_dict_traces(ctx, 400 if q else 4000, tmp, rng) + bib_events + tau_events + grid_events
-        for i, e in enumerate(events):
-            e['l'] = i
-        accepted, bad, res = validate_trace('Trace_Output', 'Trace_Output.cfg', [{k: v for k, v in e.items() if k not in ('cls', 'group')} for e in events])
-        ctx.add_tlc('trace', res, counts=False)
-        if res.postcondition_false and not bad:
-            raise Machinery('trace spec did not consume the whole trace:\n' + res.out[-1500:])
-        badl = {b['l'] for b in bad}
-        ctx.traces += len(events)
-        for e in events:
-            if e['ev'] == 'dict' and 'cls' in e:
-                ctx.verdict('RoundTrip', e['l'] not in badl, cls=e['cls'],
-                            detail='%s: the stored citation strings came back changed: %s' % (e['id'], json.dumps(e['tree'])[:240]), vector=dict(bib=e['id']))
-            elif e['ev'] == 'dict':
-                ctx.verdict('RoundTrip', e['l'] not in badl, cls='trace:' + dict_cls(e['items']),
-                            detail='TLC rejected the reloaded tree %s' % json.dumps(e['tree'])[:300], vector=dict(trace=True, items=e['items']))
-            elif e['ev'] == 'tau':
-                ctx.verdict('TauBySize', e['l'] not in badl, cls='%s:%s:%s:%s' % (e['caller'], e['place'], e['binner'], e['size']),
-                            detail='%s holds the optical-depth datasets %s; the specification (TauAt) requires %s' % (
-                                e['group'], e['tau'], [r['tau'] for r in tau_rows if (r['caller'], r['place'], r['binner'], r['size']) ==
-                                                      (e['caller'], e['place'], e['binner'], e['size'])]), vector=dict(tau=True, caller=e['caller']))
-            else:
-                ctx.verdict('GridRelationsExact', e['l'] not in badl, cls='flux:dyadic' if e['id'].startswith('flux') else 'simple:dyadic',
-                            detail='bin %s: wn=%s w=%s stored wl=%s wlwidth=%s' % (e['id'], e['wn'], e['w'], e['wl'], e['wlw']), vector=dict(trace=True, grid=e))
+        badl = judge_events(ctx, events, tau_rows)
         # canaries: one per event kind that carries a new clause
         good = [e for e in events if e['ev'] == 'dict' and 'cls' not in e and e['l'] not in badl and e['tree'].get('n') == 'group' and e['tree']['m']]
         if not good:
@@ -1157,7 +1175,7 @@ def run(ctx):
                          - {row['cls'] for row in table} - set(NOT_SWEPT))
         if missing:
             raise Machinery('built-in component classes without a sweep entry: %s' % missing)
-        cases = [combo_case(c) for c in chosen] + sweep_cases(table, sweep_pick(ctx, rng))
+        cases = [combo_case(c) for c in chosen] + sweep_cases(table)
         written = run_model_roundtrips(ctx, cases, tmp, classes)
         ctx.note('%d models written and rebuilt (%d combinations, %d sweep variants of %d component classes)' % (
             len(cases), len(chosen), len(cases) - len(chosen), len(table)))
@@ -1169,6 +1187,9 @@ def run(ctx):
         rows = rb.tagged('REB')
         if not rows:
             raise Machinery('no REB table')
+        unswept = {row['name']: sorted(row['unswept']) for row in rows[0] if row['unswept'] or not row['distinct']}
+        if unswept:
+            raise Machinery('SweepComplete fails: the component sweep leaves constructor keywords at their default (or uses equal values): %s' % unswept)
         for row in sorted(rows[0], key=lambda x: x['name']):
             lost = sorted(row['lost'])
             if not lost:
@@ -1197,12 +1218,15 @@ NOT_SWEPT = {
 def replay(ctx, violations):
     tmp = tempfile.mkdtemp(prefix='c16r_')
     rng = random.Random(0)
+    propose_findings(ctx)
     try:
         for kind, k in classes_by_name().values():
             FX._wrap_init(k)
         classes = classes_by_name()
         opacities()
-        done_spec = False
+        done = set()
+        table = sweep_table(sweep_files(tmp))
+        tables = run_tlc('MC_Output', 'MC_Output_numpy2.cfg', workers=1, allow_violation=True)
         for viol in violations:
             v = viol['vector'] or {}
             if 'dict' in v and 'tree' in v:
@@ -1213,10 +1237,24 @@ def replay(ctx, violations):
                 ctx.verdict('RoundTrip', not bad, cls=viol['cls'], detail='reloaded tree %s' % json.dumps(got)[:300], vector=v)
             elif 'model' in v and 'temp' in v:
                 v['contribs'] = tuple(v['contribs'])
-                run_model_roundtrips(ctx, [v], tmp, classes)
-            elif not done_spec:
-                done_spec = True
-                r = run_tlc('MC_Output', 'MC_Output_numpy2.cfg', workers=1, allow_violation=True)
-                run_spectrum_outputs(ctx, r.tagged('KEYS')[0], tmp, classes)
+                run_model_roundtrips(ctx, [combo_case(v)], tmp, classes)
+            elif 'sweep' in v:
+                run_model_roundtrips(ctx, [c for c in sweep_cases(table) if c['vec'] == dict(sweep=v['sweep'], variant=v['variant'])], tmp, classes)
+            elif v.get('tau') and 'tau' not in done:
+                done.add('tau')
+                ev, bib = run_size_callers(ctx, tmp, classes, rng, tables.tagged('TAU')[0])
+                opacities()
+                judge_events(ctx, ev + bib, tables.tagged('TAU')[0])
+            elif 'bib' in v and 'bib' not in done:
+                done.add('bib')
+                judge_events(ctx, run_bibliography(ctx, tmp, classes), tables.tagged('TAU')[0])
+            elif not ({'tau', 'bib'} & set(v)) and 'spec' not in done:
+                done.add('spec')
+                run_spectrum_outputs(ctx, tables.tagged('KEYS')[0], tmp, classes)
     finally:
         shutil.rmtree(tmp, ignore_errors=True)
+        try:
+            from ..fixtures import reset_caches
+            reset_caches()
+        except Exception:
+            pass
